@@ -1,6 +1,6 @@
 (* C04/Properties.v — the property theorems, nothing else.  Each is closed by [exact lemma] and followed
    by Print Assumptions (captured into the evidence by the check driver). *)
-From Verif Require Import Common.Base C04.Model C04.Proofs C04.Proofs2 C04.Proofs3 C04.Proofs4 C04.Proofs5 C04.Proofs6 C04.Proofs7 C04.Proofs8 C04.Harness C04.Obligations C04.Checker C04.CheckerProofs.
+From Verif Require Import Common.Base C04.Model C04.Proofs C04.Proofs2 C04.Proofs3 C04.Proofs4 C04.Proofs5 C04.Proofs6 C04.Proofs7 C04.Proofs8 C04.Proofs9 C04.Proofs10 C04.Harness C04.Obligations C04.Checker C04.CheckerProofs C04.Link.
 From Coq Require Import Permutation.
 Local Open Scope Z_scope.
 
@@ -50,16 +50,32 @@ Print Assumptions merge_split_conserves_partial.
 (* ================================================================================================== *)
 (* 2. termination (every signal, both sizers, every max_size, every payload)                          *)
 (* ================================================================================================== *)
-(* MergeSplit always returns: for EVERY weight function, sizer, max_size, request pair and cached-size state —
-   no hypothesis at all, also for metrics.  The argument is on the memo itself, which is what the code tests: an
-   iteration that continues has lowered it by rmSize >= 1 and the loop runs only while it exceeds max_size, so the
-   model's fuel, (memo - max_size) + 1, never runs out. *)
-Theorem split_terminates : forall w sz max a b, exists out, merge_split w sz max a b = Some out.
-Proof. exact merge_split_total. Qed.
+(* Logs, traces AND profiles (every weight function under which each item present counts >= 1: records, spans, profiles
+   with samples), both sizers, every max_size: MergeSplit returns.  The repaired loop (ffc8e5fcc) has two kinds of
+   iteration: one that removes something lowers the memo by rmSize >= 1 and does not add items; one that removes
+   nothing isolates the leftmost item — EXACTLY one item leaves (Proofs9.isolate_one: the extraction with the items
+   sizer and capacity = the leftmost weight moves that item, by progress of the greedy walk, and nothing else, by its
+   capacity bound and the order it keeps) — and recomputes the memo, which cannot grow (what is left of an extraction
+   is not larger than what was there: Proofs6.extract_payload_mono).  So the model's fuel, (memo - max_size) + items + 1,
+   never runs out.  Hypotheses: non-negative measured sizes, weight >= 1, an exact (or unknown) memo.
+   Metrics: [split_terminates_metrics] (bytes sizer) and [metrics_items_split] (items sizer) below. *)
+Theorem split_terminates : forall w sz max a b,
+  wf_p w sz (rp a) -> wf_opt w sz b -> pos_items w (rp a) -> (forall r, b = Some r -> pos_items w (rp r)) ->
+  memo_ok w sz a -> memo_ok_opt w sz b ->
+  exists out, merge_split w sz max a b = Some out.
+Proof. exact merge_split_total_l. Qed.
 Print Assumptions split_terminates.
 
-Theorem split_terminates_metrics : forall sz max a b, exists out, mmerge_split sz max a b = Some out.
-Proof. exact mmerge_split_total. Qed.
+(* Metrics, bytes sizer, every max_size: MergeSplit returns although the memo drifts (C04-CACHEDRIFT).  The drift has a
+   direction: at every level removedSize never overstates what left (the nested length prefixes, which the accounting
+   ignores, only shrink further: Proofs10.extract_mpayload_le), so a memo that does not understate the size never does;
+   an iteration that removes something lowers it by >= 1 without adding points; one that removes nothing takes exactly
+   one data point away and recomputes the memo, which can then only lower it.  Hypotheses: non-negative measured sizes;
+   each memo unknown or not below the true size ([memo_ge]: any fresh or exactly measured request). *)
+Theorem split_terminates_metrics : forall max a b,
+  wf_mpayload Bytes (mrp a) -> wf_mopt Bytes b -> memo_ge a -> memo_ge_opt b ->
+  exists out, mmerge_split Bytes max a b = Some out.
+Proof. exact mmerge_split_total_bytes. Qed.
 Print Assumptions split_terminates_metrics.
 
 (* ================================================================================================== *)
@@ -113,39 +129,66 @@ Theorem cached_size_exact_bytes : forall w max a b out,
 Proof. exact (fun w => cached_size_exact_all_l w Bytes). Qed.
 Print Assumptions cached_size_exact_bytes.
 
-(* Every request that split() cuts off measures at most max_size in the active unit (TRUE recomputed size: the
-   reservation capacity - (DeltaSize capacity - capacity) - header is sound against the nested length prefixes);
-   the last request is within max_size by its (exact) memo, or it is the remainder of a split that stopped because
-   an extraction removed nothing ([no_progress]: C04-OVERSIZED-REMAINDER).  Hypothesis: non-negative measured sizes
-   (and weight >= 1 for the items sizer).  With w_samples / Items this is the bound for profiles: at most max_size
-   samples per batch. *)
+(* THE GENERAL SIZE BOUND of the repaired split loop, every weight function, sizer, max_size >= 1 and request pair:
+   every request cut off measures at most max_size (TRUE recomputed size in the active unit: the reservation
+   capacity - (DeltaSize capacity - capacity) - header is sound against the nested length prefixes) or is [isolated]:
+   it is exactly what an extraction with the ITEMS sizer and capacity = the leftmost positive weight takes from the
+   front of the remainder — the unit that does not fit alone; the last request is within max_size by its memo, or it is
+   an [itemless_remainder]: nothing could be removed from it and it holds no item of positive weight (containers
+   without records that do not fit: there is nothing to isolate).  Hypothesis: non-negative measured sizes (and
+   weight >= 1 for the items sizer). *)
 Theorem batch_size_bound_any_sizer : forall w sz max a b out,
   wf_p w sz (rp a) -> wf_opt w sz b -> 1 <= max ->
   merge_split w sz max a b = Some out ->
-  exists ds last, out = ds ++ [last] /\ Forall (fun q => payload_size w sz (rp q) <= max) ds /\
-                  (rcached last <= max \/ no_progress w sz max last).
+  exists ds last, out = ds ++ [last] /\
+    Forall (fun q => payload_size w sz (rp q) <= max \/ isolated w q) ds /\
+    (rcached last <= max \/ itemless_remainder w sz max last).
 Proof. exact batch_size_bound_all_l. Qed.
 Print Assumptions batch_size_bound_any_sizer.
 
-Theorem batch_size_bound_bytes : forall w max a b out,
-  wf_p w Bytes (rp a) -> wf_opt w Bytes b -> 1 <= max ->
-  merge_split w Bytes max a b = Some out ->
-  exists ds last, out = ds ++ [last] /\ Forall (fun q => payload_size w Bytes (rp q) <= max) ds /\
-                  (rcached last <= max \/ no_progress w Bytes max last).
-Proof. exact (fun w => batch_size_bound_all_l w Bytes). Qed.
+(* ... in the property's wording, logs and traces, both sizers, exact (or unknown) memos: every emitted request is
+   within max_size (true size) or holds EXACTLY ONE record / span; only the last one may instead be above max_size
+   while holding NO record at all (item-less containers; Witness.ex_itemless_oversized) *)
+Theorem batch_size_bound_one_item : forall sz max a b out,
+  wf_p w_unit sz (rp a) -> wf_opt w_unit sz b -> memo_ok w_unit sz a -> memo_ok_opt w_unit sz b -> 1 <= max ->
+  merge_split w_unit sz max a b = Some out ->
+  exists ds last, out = ds ++ [last] /\
+    Forall (fun q => payload_size w_unit sz (rp q) <= max \/ count (rp q) = 1) ds /\
+    (payload_size w_unit sz (rp last) <= max \/ (count (rp last) = 0 /\ itemless_remainder w_unit sz max last)).
+Proof. exact batch_size_bound_unit_l. Qed.
+Print Assumptions batch_size_bound_one_item.
+
+(* ... and for every weight function under which each item counts >= 1 (profiles with samples: one item = one profile) *)
+Theorem batch_size_bound_one_item_any_weight : forall w sz max a b out,
+  wf_p w sz (rp a) -> wf_opt w sz b -> pos_items w (rp a) -> (forall r, b = Some r -> pos_items w (rp r)) ->
+  memo_ok w sz a -> memo_ok_opt w sz b -> 1 <= max ->
+  merge_split w sz max a b = Some out ->
+  exists ds last, out = ds ++ [last] /\
+    Forall (fun q => payload_size w sz (rp q) <= max \/ length (items_of (rp q)) = 1%nat) ds /\
+    (payload_size w sz (rp last) <= max \/ items_of (rp last) = []).
+Proof. exact batch_size_bound_pos_l. Qed.
+Print Assumptions batch_size_bound_one_item_any_weight.
+
+Theorem batch_size_bound_bytes : forall max a b out,
+  wf_p w_unit Bytes (rp a) -> wf_opt w_unit Bytes b -> memo_ok w_unit Bytes a -> memo_ok_opt w_unit Bytes b -> 1 <= max ->
+  merge_split w_unit Bytes max a b = Some out ->
+  exists ds last, out = ds ++ [last] /\
+    Forall (fun q => payload_size w_unit Bytes (rp q) <= max \/ count (rp q) = 1) ds /\
+    (payload_size w_unit Bytes (rp last) <= max \/ (count (rp last) = 0 /\ itemless_remainder w_unit Bytes max last)).
+Proof. exact (batch_size_bound_unit_l Bytes). Qed.
 Print Assumptions batch_size_bound_bytes.
 
-(* ================================================================================================== *)
-(* 4. the size bound: what is false of the code                                                       *)
-(* ================================================================================================== *)
-(* C04-OVERSIZED-REMAINDER: when the leftmost unit does not fit, split() returns the whole remainder: a request
-   above max_size holding TWO records *)
-Theorem oversized_remainder_refuted : exists w sz max a out q,
-  merge_split w sz max a None = Some out /\ In q out /\
-  max < payload_size w sz (rp q) /\ length (items_of (rp q)) = 2%nat.
-Proof. exact oversized_remainder_refuted_l. Qed.
-Print Assumptions oversized_remainder_refuted.
+(* metrics, bytes sizer (9e189f99b): the fragment cut off a metric that does not fit is itself within the capacity it
+   was cut for, length prefix of the fragment included (before the repair the prefix was not reserved: C04-FRAGPREFIX) *)
+Theorem fragment_fits : forall m cap e rest er,
+  wf_metric Bytes m -> extract_metric Bytes m cap = (e, rest, er) -> mpts e <> [] ->
+  delta Bytes (metric_size Bytes e) <= cap.
+Proof. exact fragment_fits_l. Qed.
+Print Assumptions fragment_fits.
 
+(* ================================================================================================== *)
+(* 4. metrics, bytes sizer: what is still false of the code (open findings)                           *)
+(* ================================================================================================== *)
 (* C04-EMPTYFRAG: metrics, bytes: a batch above max_size holding two points although every unit fits alone *)
 Theorem batch_size_bound_refuted : exists max a out q,
   mmerge_split Bytes max a None = Some out /\ In q out /\
@@ -172,46 +215,38 @@ Section Batcher.
   Context {R : Type}.
   Variable msplit : R -> option R -> option (list R).
   Variable sizeof : R -> Z.
+  Variable icount : R -> Z.          (* ItemsCount() *)
   Variable min_size : Z.
 
   (* never more than once *)
   Theorem done_at_most_once : forall es i,
-    fcount i (b_fired (fst (brun msplit sizeof min_size es))) <= 1.
-  Proof. exact (done_at_most_once_l msplit sizeof min_size). Qed.
+    fcount i (b_fired (fst (brun msplit sizeof icount min_size es))) <= 1.
+  Proof. exact (done_at_most_once_l msplit sizeof icount min_size). Qed.
 
   (* exactly once as soon as nothing is parked and nothing is in flight (e.g. after shutdown and the return
      of every export) — for every request consumed so far *)
   Theorem done_exactly_once : forall es i,
-    let st := fst (brun msplit sizeof min_size es) in
+    let st := fst (brun msplit sizeof icount min_size es) in
     b_cur st = None -> b_flying st = [] ->
     (i < length (filter (fun e => match e with EConsume _ => true | _ => false end) es))%nat ->
     fcount i (b_fired st) = 1.
-  Proof. exact (done_exactly_once_l2 msplit sizeof min_size). Qed.
+  Proof. exact (done_exactly_once_l2 msplit sizeof icount min_size). Qed.
 
   (* only after every batch holding part of it has finished: once fired, neither the parked batch nor any
      in-flight batch refers to the request, directly or through a refCountDone that still counts *)
   Theorem done_only_after_batches : forall es i,
-    0 < fcount i (b_fired (fst (brun msplit sizeof min_size es))) ->
-    ~ refers (fst (brun msplit sizeof min_size es)) i.
-  Proof. exact (done_only_after_batches_l msplit sizeof min_size). Qed.
+    0 < fcount i (b_fired (fst (brun msplit sizeof icount min_size es))) ->
+    ~ refers (fst (brun msplit sizeof icount min_size es)) i.
+  Proof. exact (done_only_after_batches_l msplit sizeof icount min_size). Qed.
   (* the error a callback reports is EXACTLY the specification's verdict [snd (erun es) i] (Model.erun): request
      i's own MergeSplit failed, or the export of a batch whose done list was ATTACHED to i (it contains i's done or a
      refCountDone wrapping it) returned an error — both directions, every history *)
   Theorem done_error_iff : forall es i e,
-    In (i, e) (b_fired (fst (brun msplit sizeof min_size es))) -> e = snd (erun msplit sizeof min_size es) i.
-  Proof. exact (done_error_iff_l msplit sizeof min_size). Qed.
+    In (i, e) (b_fired (fst (brun msplit sizeof icount min_size es))) -> e = snd (erun msplit sizeof icount min_size es) i.
+  Proof. exact (done_error_iff_l msplit sizeof icount min_size). Qed.
 End Batcher.
 Print Assumptions done_error_iff.
 
-(* "attached to" is not "holds items of": with requests that are lists of ids and a MergeSplit that leaves slack,
-   request 2 reports an error although every batch holding one of its ids succeeded (C04-DONE-FOREIGN-ERROR) *)
-Theorem done_error_only_items_refuted :
-  let '(batches, fired) := model_bat 2 3 3 foreign_evs in
-  In (2, 1) fired /\
-  forall b ids, nth_error batches b = Some ids -> (exists x, In x ids /\ In x [3;4;5;6;7]) ->
-                ~ In (2, [Z.of_nat b], 1) foreign_evs.
-Proof. exact done_error_only_items_refuted_l. Qed.
-Print Assumptions done_error_only_items_refuted.
 Print Assumptions done_at_most_once.
 Print Assumptions done_exactly_once.
 Print Assumptions done_only_after_batches.
@@ -221,7 +256,7 @@ Print Assumptions done_only_after_batches.
 (* ================================================================================================== *)
 (* The batcher instantiated with the payload requests of sections 1-3: MergeSplit = merge_split w sz max, the
    queue's sizer = the true size, min_size <= max_size (or no limit) as BatchConfig.Validate demands; requests with
-   non-negative measured sizes ([wf_events]).  [krun] is [brun] with the list of consumed requests as ghost;
+   non-negative measured sizes, every item counting >= 1 in ItemsCount() ([wf_events]: vacuous for logs / traces).  [krun] is [brun] with the list of consumed requests as ghost;
    [owner rs i x]: item x belongs to the i-th consumed request. *)
 
 (* "holds items of" implies "attached": every batch in flight that holds an item whose only owner is request i has
@@ -242,33 +277,45 @@ Theorem done_error_if_items : forall w sz max min, 0 <= max -> (max = 0 \/ min <
   let '(st, n, rs) := krun w sz max min es1 in
   forall r ds x i e, fly_req b (b_flying st) = Some (r, ds) -> In x (ritems r) ->
     owner rs i x -> (forall j, owner rs j x -> j = i) ->
-    In (i, e) (b_fired (fst (brun (msplitC w sz max) (sizeofC w sz) min (es1 ++ EResult b true :: es2)))) -> e = true.
+    In (i, e) (b_fired (fst (brun (msplitC w sz max) (sizeofC w sz) (icountC w) min (es1 ++ EResult b true :: es2)))) -> e = true.
 Proof. exact done_error_if_items_l. Qed.
 Print Assumptions done_error_if_items.
 
-(* 'only if' half in items is false of the code, also on payload requests with the bytes sizer
-   (C04-DONE-FOREIGN-ERROR): batch 0 holds only record 1 (request 0) and fails; request 1 (records 2, 3, 4, exported
-   successfully in batches 1, 2, 3) reports an error.  In terms of ATTACHED batches both halves hold: done_error_iff. *)
-Theorem done_error_only_items_refuted_payload :
-  let run es := fst (brun (msplitC w_unit Bytes 120) (sizeofC w_unit Bytes) 120 es) in
-  map (fun f => (fst (fst f), map iid (ritems (snd (fst f))))) (b_flying (run (firstn 3 fe_hist)))
-    = [(0%nat, [1]); (1%nat, [2]); (2%nat, [3]); (3%nat, [4])] /\
-  b_fired (run fe_hist) = [(0%nat, true); (1%nat, true)].
-Proof. exact foreign_error_payload_witness. Qed.
-Print Assumptions done_error_only_items_refuted_payload.
-
+(* 'only if' half: the error reported is exactly the verdict over ATTACHED batches (done_error_iff), and the
+   repaired consume (6f74b829b) attaches the new request's done to the first result r0 of MergeSplit(parked, new)
+   exactly when [attach] (Model.consume: first_holds_new) is true.  In items: not attached -> r0 holds items of the parked
+   batch only; attached -> r0 is the only result or holds an item of the new request; every other result holds items
+   of the new request only (and gets its done); the parked batch (within max_size) is entirely in r0, where its dones
+   stay (run-time oracle parked-items-not-in-first-result, all four signals).  So a done is attached to a batch that holds none of its request's
+   items only in these cases, all item-less: the request holds no item (its done rides on the single result), a
+   result other than the first holds no item (item-less containers of the request), or the parked batch it was
+   attached to held no item of it for one of these reasons.  (The statement "error -> a failed batch held one of its
+   items", over whole histories, is checked on every observed history by the items oracle and the clause checker,
+   with these cases as the only ones not flagged; it is not a Coq theorem.) *)
+Theorem attach_rule_items : forall w sz max a b r0 rest,
+  wf_p w sz (rp a) -> wf_p w sz (rp b) -> pos_items w (rp b) -> (max = 0 \/ psum w sz (rp a) <= max) -> 0 <= max ->
+  merge_split w sz max a (Some b) = Some (r0 :: rest) ->
+  let attach := (Nat.eqb (length rest) 0 || negb (icountC w r0 =? icountC w a))%bool in
+  (attach = false -> forall x, In x (ritems r0) -> In x (ritems a)) /\
+  (attach = true -> rest = [] \/ exists x, In x (ritems r0) /\ In x (ritems b)) /\
+  (forall q x, In q rest -> In x (ritems q) -> In x (ritems b)) /\
+  (forall x, In x (ritems a) -> In x (ritems r0)).
+Proof. exact attach_rule_items_l. Qed.
+Print Assumptions attach_rule_items.
 
 (* ================================================================================================== *)
 (* 7. conservation for ANY SEQUENCE of requests through the batcher (logs / traces / profiles)        *)
 (* ================================================================================================== *)
-(* [crun] = [brun] of the payload batcher with two ghosts: the consumed requests and the items of the batches whose
+(* [crun] = [brun] of the payload batcher with three ghosts: the consumed requests, [ok] = the items of the consumed
+   requests whose MergeSplit did not fail (a request whose MergeSplit fails is reported failed at once and none of it
+   enters a batch; for logs / traces MergeSplit never fails: split_terminates), and [F] = the items of the batches whose
    export has returned.  After any history (any number of requests, timer flushes, export results in any order with
-   any outcome, shutdown): parked + in flight + exported = entered, as multisets of items (with their sizes and
+   any outcome, shutdown): parked + in flight + exported = [ok], as multisets of items (with their sizes and
    weights; their contexts are conserved by every MergeSplit: section 1). *)
 Theorem batcher_conserves : forall w sz max min, 0 <= max -> (max = 0 \/ min <= max) -> forall es,
   wf_events w sz es ->
-  let '(st, n, rs, F) := crun w sz max min es in
-  Permutation (cur_items st ++ fly_items st ++ F) (items_reqs rs).
+  let '(st, n, rs, ok, F) := crun w sz max min es in
+  Permutation (cur_items st ++ fly_items st ++ F) ok.
 Proof. exact batcher_conserves_l. Qed.
 Print Assumptions batcher_conserves.
 
@@ -295,3 +342,44 @@ Theorem checker_sound_batcher : forall max failed evs batches fired,
   clauses_bat max failed evs batches fired = 0 -> Clause_bat_core evs batches fired.
 Proof. exact clauses_bat_sound. Qed.
 Print Assumptions checker_sound_batcher.
+
+Theorem checker_sound_metrics : forall sz max a b obs,
+  clauses_m4 sz max a b obs = 0 <-> Clause_m4 sz max a b obs.
+Proof. exact clauses_m4_sound. Qed.
+Print Assumptions checker_sound_metrics.
+
+(* all four batcher clauses: callback count, conservation of ids, batch size, and the error clause in ITEMS (ids):
+   error iff own MergeSplit failed or the export of a batch holding one of its ids failed *)
+Theorem checker_sound_batcher_full : forall max failed evs batches fired,
+  clauses_bat max failed evs batches fired = 0 -> Clause_bat max failed evs batches fired.
+Proof. exact clauses_bat_sound_full. Qed.
+Print Assumptions checker_sound_batcher_full.
+
+(* ================================================================================================== *)
+(* 9. the checker linked back to the model: what the MODEL produces passes the checker               *)
+(* ================================================================================================== *)
+(* Logs / traces / profiles, both sizers, every max_size >= 0, every request pair: the observation built from the model's
+   own MergeSplit exactly as the harness builds it from the implementation's (Harness.model_l3 = out3 of every returned
+   request) passes ALL clauses of the checker (termination, conservation with context, size bound with the one-item /
+   item-less exceptions, cached size, fullness).  [guard_l3] (boolean, Link.v) is the hypotheses of the theorems above:
+   non-negative measured sizes (= the checker's own clause 9), every item counts >= 1, memos unknown or exact,
+   max_size >= 0.  With sections 1-3 and checker_sound_mergesplit this makes the checker's verdict and the theorems
+   statements about the same thing: a case on which the checker fails is one on which the implementation differs from
+   the model (or leaves the guard). *)
+Theorem model_passes_checker_mergesplit : forall signal sz max a b,
+  guard_l3 signal sz max a b = true ->
+  clause_code (CL3 signal sz max a b (model_l3 signal sz max a b)) = 0.
+Proof. exact model_passes_checker_l3. Qed.
+Print Assumptions model_passes_checker_mergesplit.
+
+(* Batcher histories over ids requests, clause 6 (the first test of clauses_bat): on the model's own run every callback
+   fired exactly once, as soon as nothing is parked and nothing is in flight.  Clauses 2, 3, 7 (conservation of ids,
+   batch size, error in ids) are NOT linked for this request type: the item-level theorems (holds_attached,
+   batcher_conserves, attach_rule_items) are proved for the payload requests of the real exporter, not for the harness's
+   list-of-ids requests with their slack MergeSplit (Harness.lsplit). *)
+Theorem model_passes_checker_batcher_done : forall sl mn mx evs,
+  let st := fst (brun (lsplit sl mx) lsizeof lsizeof mn (map bev_of evs)) in
+  b_cur st = None -> b_flying st = [] ->
+  forallb (fun i => Nat.eqb (count_occ Z.eq_dec (map fst (snd (model_bat sl mn mx evs))) (Z.of_nat i)) 1) (seq 0 (length (ev_reqs evs))) = true.
+Proof. exact model_passes_checker_bat_done. Qed.
+Print Assumptions model_passes_checker_batcher_done.
